@@ -1027,11 +1027,20 @@ def _evalatom(a, env):
 
 def numerically_equal(x, y, seeds=(1, 2, 3), prepare=None, tol=1e-8):
     """True/False, or raises Unknown when evaluation is impossible."""
-    for sd in seeds:
+    good = 0; last = None
+    # a sample at which a form cannot be evaluated (a denominator that happens to vanish there) is replaced by another one
+    for sd in list(seeds) + [seeds[-1] + 100 + k for k in range(12)]:
         env = NumEnv(sd)
         if prepare: prepare(env)
-        a = evalx(x, env); b = evalx(y, env)
+        try:
+            a = evalx(x, env); b = evalx(y, env)
+        except (Unknown, OverflowError, ZeroDivisionError, ValueError) as ex:
+            last = ex; continue
+        if a != a or b != b: last = ValueError("nan"); continue
+        good += 1
         if abs(a - b) > tol * (1 + abs(a) + abs(b)): return False
+        if good >= len(seeds): return True
+    if good == 0: raise Unknown(f"numeric: {last}")
     return True
 
 
